@@ -55,7 +55,6 @@ func (d c02Dialect) ext() string {
 	return "csv"
 }
 
-
 func (d c02Dialect) writeArgs() []string {
 	a := []string{"--format", d.Format, "--write-encoding", d.Enc, "--line-break", d.LB}
 	if d.EncloseAll {
